@@ -150,6 +150,8 @@ type frame struct {
 	// results
 	rets []retInfo
 	contract *FuncContract
+	curInstr ssa.Instruction // instruction being encoded (at_call clauses resolve locals to the value reaching it)
+	atCallCtx bool
 	inLibNote bool
 	parent *frame
 	isTop bool
@@ -1152,8 +1154,10 @@ func (f *frame) encodeBody(entryPC string, entryHeap Heap) {
 			if _, ok := in.(*ssa.Phi); ok {
 				continue
 			}
+			f.curInstr = in
 			f.instr(in)
 		}
+		f.curInstr = nil
 		f.pcOut[b] = f.curPC
 		f.heapOut[b] = f.curHeap
 		// back edges out of this block: invariant preservation
